@@ -22,6 +22,7 @@ package copyh
 //	XX.n       dst.Exists returned an error
 //	SX.n       src.Fetch returned an error
 //	PX.n.r.s   dst.Push (r=0) / PushReference (r=1) returned an error; s=1: the content was stored
+//	FX.n       the FindSuccessors callback failed for n
 //	SR.n       Read() of the stream fetched for n failed outside a destination Push / Mount (the proxy
 //	           reading a manifest for FindSuccessors); inside a Push / Mount that operation reports it
 //	TX.n.s     dst.Tag returned an error; s=1: the reference was set
@@ -62,7 +63,7 @@ import (
 
 // Fault is one injection point.
 type Fault struct {
-	Op     string `json:"op"`     // exists | fetch | read | push | tag | mount | pred | pre | post | skip | mountfrom | mounted | maproot
+	Op     string `json:"op"`     // exists | fetch | read | findsucc | push | tag | mount | pred | pre | post | skip | mountfrom | mounted | maproot
 	Node   int    `json:"node"`   // node id (-1 for maproot)
 	After  bool   `json:"after"`  // after the side effect of the real operation (else before it)
 	Cancel bool   `json:"cancel"` // cancel the context of the call instead of returning an error
@@ -97,6 +98,7 @@ type FCase struct {
 	//                                             although other roots reach them: nested roots)
 	RefFetch  bool          `json:"reffetch"`  // Copy: the source is a registry.ReferenceFetcher (resolveRoot reads the root through it
 	//                                             and leaves a manifest root in the proxy cache)
+	CustomFS  bool          `json:"customfs"`  // CopyGraphOptions.FindSuccessors is set (content.Successors behind a fault point)
 	NilCb     string        `json:"nilcb"`     // "" (all callbacks set) or 5 bits: PreCopy PostCopy OnCopySkipped OnMounted MountFrom set
 	MapRoot   bool          `json:"maproot"`   // Copy gets an (identity) MapRoot: a prologue fault point
 	Mount     bool          `json:"mount"`     // the destination is a registry.Mounter and MountFrom is set (g, t, x)
@@ -845,6 +847,26 @@ func runCall(c *FCase, g *dag.Graph, src, dst oras.Target, faults []Fault, preCa
 		}
 	}
 	gopts := oras.CopyGraphOptions{Concurrency: c.K, PreCopy: cb("pre"), PostCopy: cb("post"), OnCopySkipped: cb("skip")}
+	if c.CustomFS {
+		// a user FindSuccessors: content.Successors behind a fault point "findsucc" (before: nothing fetched yet;
+		// after: the successors are known, none is dispatched)
+		gopts.FindSuccessors = func(ctx context.Context, fetcher content.Fetcher, d ocispec.Descriptor) ([]ocispec.Descriptor, error) {
+			n := f.node(d)
+			if f.hit("findsucc", n, false) {
+				f.ev(fmt.Sprintf("FX.%d", n), 0, 0)
+				return nil, errFault
+			}
+			su, err := content.Successors(ctx, fetcher, d)
+			if err != nil {
+				return nil, err // (the failing fetch / read was logged as SX / SR)
+			}
+			if f.hit("findsucc", n, true) {
+				f.ev(fmt.Sprintf("FX.%d", n), 0, 0)
+				return nil, errFault
+			}
+			return su, nil
+		}
+	}
 	isSet := func(i int) bool { return len(c.NilCb) != 5 || c.NilCb[i] == '1' }
 	if !isSet(0) {
 		gopts.PreCopy = nil
@@ -1407,6 +1429,9 @@ func GenerateF(genseed uint64, stream string, thorough bool) *FCase {
 		c.RefFetch = true
 	}
 	if r.Chance(1, 4) {
+		c.CustomFS = true
+	}
+	if r.Chance(1, 4) {
 		// some callbacks are nil (their invocations are inserted by the model's elaboration)
 		bs := []byte("11111")
 		for i := 0; i < 4; i++ {
@@ -1474,6 +1499,9 @@ func GenerateF(genseed uint64, stream string, thorough bool) *FCase {
 		}
 		if c.RefFetch && r.Chance(1, 8) {
 			ft.Op, ft.Node = "rootread", -1
+		}
+		if c.CustomFS && ft.Node >= 0 && r.Chance(1, 4) {
+			ft.Op = "findsucc"
 		}
 		if c.Mount && ft.Node >= 0 && !g.Nodes[ft.Node].IsManifest() && r.Chance(3, 4) {
 			ft.Op = common.Pick(r, []string{"mount", "mount", "mountfrom", "mounted", "pre", "fetch"})
@@ -1639,6 +1667,15 @@ func allPlacements(c *FCase, g *dag.Graph) []Fault {
 	if c.API == "t" || c.API == "r" {
 		out = append(out, Fault{Op: "resolve", Node: -1}, Fault{Op: "resolve", Node: -1, Cancel: true})
 	}
+	if c.CustomFS {
+		for _, n := range rl {
+			for _, after := range []bool{false, true} {
+				for _, cn := range []bool{false, true} {
+					out = append(out, Fault{Op: "findsucc", Node: n, After: after, Cancel: cn})
+				}
+			}
+		}
+	}
 	if c.RefFetch {
 		out = append(out, Fault{Op: "rootread", Node: -1}, Fault{Op: "rootread", Node: -1, After: true}, Fault{Op: "rootread", Node: -1, Cancel: true})
 	}
@@ -1777,6 +1814,9 @@ func DriveF(run *common.Run, b FBudget) {
 		}
 		if c.RefFetch {
 			run.Count("src-reference-fetcher")
+		}
+		if c.CustomFS {
+			run.Count("custom-FindSuccessors")
 		}
 		if len(c.Cut) > 0 {
 			run.Count("nested-roots(FindPredecessors cut)")
